@@ -512,3 +512,80 @@ Example ex_load_fast_batches_cut :
     (enc_sections [ex_b1; ex_b2; ex_b1] ++ [x05; x01])
   = ([[ex_b1; ex_b2]], Err EUnexpectedEof).
 Proof. vm_compute. reflexivity. Qed.
+
+(* ---- the internal and the root-module statements side by side (props/C02.v states them together) ---- *)
+Theorem readers_read_back hok hdrdec roots bs :
+  hdr_good hdrdec roots -> roots <> [] -> Forall (hash_good hok) bs ->
+  (forall o, blen (enc_header (Some roots) 1) <= o_maxh o -> blen (enc_header (Some roots) 1) < two63 ->
+     Forall (block_ok (o_maxs o)) bs ->
+     carv1_read_all hok hdrdec o (enc_payload roots bs) = Ok (roots, mkscan bs EEof)) /\
+  (blen (enc_header (Some roots) 1) <= root_max_section -> Forall root_block_ok bs ->
+     root_read_all hok hdrdec (enc_payload roots bs) = Ok (roots, mkscan bs EEof)).
+Proof.
+  intros Hg Hne Hh. split.
+  - intros o Hmax H63 Hok. apply carv1_read_all_v1; try assumption.
+    repeat split; try assumption. intros _. assumption.
+  - intros Hmax Hok. apply root_read_all_v1; assumption.
+Qed.
+
+Theorem loaders_refine_readers hok hdrdec fast fail file :
+  match carv1_read_all hok hdrdec default_ropts file with
+  | Err e => carv1_load hok hdrdec fast fail file = mkload [] (Err e)
+  | Ok (roots, out) => load_refines fast fail roots out (carv1_load hok hdrdec fast fail file)
+  end /\
+  match root_read_all hok hdrdec file with
+  | Err e => root_load hok hdrdec fast fail file = mkload [] (Err e)
+  | Ok (roots, out) => load_refines fast fail roots out (root_load hok hdrdec fast fail file)
+  end.
+Proof. split; [apply carv1_load_refines_reader|apply root_load_refines_reader]. Qed.
+
+Theorem loaders_ok_complete hok hdrdec fast fail file calls roots :
+  (carv1_load hok hdrdec fast fail file = mkload calls (Ok roots) ->
+     carv1_read_all hok hdrdec default_ropts file = Ok (roots, mkscan (concat calls) EEof) /\
+     forall k, fail = Some k -> N.of_nat (length calls) <= k) /\
+  (root_load hok hdrdec fast fail file = mkload calls (Ok roots) ->
+     root_read_all hok hdrdec file = Ok (roots, mkscan (concat calls) EEof) /\
+     forall k, fail = Some k -> N.of_nat (length calls) <= k).
+Proof. split; [apply carv1_load_ok_complete|apply root_load_ok_complete]. Qed.
+
+Theorem loaders_store_only_intact hok hdrdec fast fail file :
+  Forall (intact hok) (concat (l_calls (carv1_load hok hdrdec fast fail file))) /\
+  Forall (intact_root hok) (concat (l_calls (root_load hok hdrdec fast fail file))).
+Proof. split; [apply carv1_load_stores_only_intact|apply root_load_stores_only_intact]. Qed.
+
+Theorem loaders_corrupt hok hdrdec fast fail roots pre c d rest :
+  hdr_good hdrdec roots -> roots <> [] -> Forall (hash_good hok) pre -> hash_bad hok (c, d) ->
+  (blen (enc_header (Some roots) 1) <= o_maxh default_ropts ->
+   Forall (block_ok (o_maxs default_ropts)) pre -> block_ok (o_maxs default_ropts) (c, d) ->
+   exists calls e t,
+     carv1_load hok hdrdec fast fail
+       (ld (enc_header (Some roots) 1) ++ enc_sections pre ++ enc_section c d ++ rest)
+     = mkload calls (Err e) /\ concat calls ++ t = pre /\
+     (fail = None -> e = EOther /\ (fast = false -> calls = map (fun b => [b]) pre))) /\
+  (blen (enc_header (Some roots) 1) <= root_max_section ->
+   Forall root_block_ok pre -> root_block_ok (c, d) ->
+   exists calls e t,
+     root_load hok hdrdec fast fail
+       (ld (enc_header (Some roots) 1) ++ enc_sections pre ++ enc_section c d ++ rest)
+     = mkload calls (Err e) /\ concat calls ++ t = pre /\
+     (fail = None -> e = EOther /\ (fast = false -> calls = map (fun b => [b]) pre))).
+Proof.
+  intros Hg Hne Hh Hbad. split; intros Hmax Hok Hb.
+  - apply carv1_load_corrupt; assumption.
+  - apply root_load_corrupt; assumption.
+Qed.
+
+Theorem loaders_intact hok hdrdec fast roots bs :
+  hdr_good hdrdec roots -> roots <> [] -> Forall (hash_good hok) bs ->
+  (blen (enc_header (Some roots) 1) <= o_maxh default_ropts ->
+   Forall (block_ok (o_maxs default_ropts)) bs ->
+   exists calls, carv1_load hok hdrdec fast None (enc_payload roots bs) = mkload calls (Ok roots) /\
+                 concat calls = bs) /\
+  (blen (enc_header (Some roots) 1) <= root_max_section -> Forall root_block_ok bs ->
+   exists calls, root_load hok hdrdec fast None (enc_payload roots bs) = mkload calls (Ok roots) /\
+                 concat calls = bs).
+Proof.
+  intros Hg Hne Hh. split; intros Hmax Hok.
+  - apply carv1_load_intact; assumption.
+  - apply root_load_intact; assumption.
+Qed.
